@@ -1,13 +1,18 @@
 package main
 
 import (
+	"flag"
+
 	"verifharness/hx"
 	"verifharness/mods/oracle"
 )
 
 func main() {
+	genesis := flag.Bool("genesis", false, "also generate `oracle export` / `oracle reimport` operations inside histories (C12)")
 	o := hx.ParseOpts()
 	env := hx.NewEnv()
-	hx.RunHistories(env, oracle.New(env), o)
+	rn := oracle.New(env)
+	rn.Genesis = *genesis
+	hx.RunHistories(env, rn, o)
 	oracle.AppendStats(o.Out)
 }
